@@ -4,6 +4,8 @@ From V.c05 Require Import C05CodecModel.
 From V.c02 Require Import C02AggModel C02AggFragProofs C02AggScanProofs.
 From V.c12 Require Import C12Model C12Spec C12Sidx C12PartProofs C12BoundProofs C12ShapeProofs C12EncProofs C12SidxProofs.
 From V.c12 Require Import C12Bytes C12BytesProofs C12StreamProofs C12EptProofs C12C01Model C12C01Proofs.
+From V.c05 Require C05SegCodecModel.
+From V.c12 Require Import C12PosProofs C12SegBytesProofs.
 
 (* Every accepted top-level sequence, every flag combination: the children of the fragments of the
    segments, flattened in order, are exactly the emsg/moof/mdat boxes of the input in order (minus
@@ -122,6 +124,62 @@ Theorem C12_reencode_identical_c01 :
   reencode (c01_env inb doff) o bs = Ok stream.
 Proof. exact reencode_identical_c01. Qed.
 Print Assumptions C12_reencode_identical_c01.
+
+(* From the bytes to the segment partition.  The stream is the concatenation of the boxes' bytes, each as long as its
+   Size() (`sized`), shorter than 2^64 bytes, of a layout_ok layout; ANY decode flags / delimiter.  Then the stream of boxes
+   splits as  init ++ top-level sidx ++ segments ++ [mfra], and for segment i: MediaSegment.StartPos (sg_start) IS the number
+   of bytes in front of the segment, the stream from that byte offset on is the segment's bytes followed by the rest; for its
+   fragment j: Fragment.StartPos (fr_start) IS the number of bytes in front of the fragment's first child; and for child k of
+   the fragment (emsg, moof, mdat): the stream at offset fr_start + sizes of the children before it starts with the child's
+   bytes, and the box that C05's byte-level reader (C05SegCodecModel.next_box: DecodeHeader + the size check, composed
+   read-only) decodes there is the box it decodes from the child's bytes alone - the abstract partition of C12_partition
+   is a partition of the byte stream at the recorded positions. *)
+Theorem C12_partition_bytes : forall (env : N -> binfo) (o : opts) (bs : list topbox) (f : file),
+  assemble o bs = Ok f -> layout_ok bs = true ->
+  sized env bs -> sumN (map b_size bs) < M64 ->
+  bs = hdr f ++ asb (f_segs f) ++ opt_list (f_mfra f) /\
+  forall i s, nth_error (f_segs f) i = Some s ->
+    let pre := hdr f ++ asb (firstn i (f_segs f)) in
+    let post := asb (skipn (S i) (f_segs f)) ++ opt_list (f_mfra f) in
+    bs = pre ++ seg_boxes s ++ post /\
+    sg_start s = lenN (bytes_of env pre) /\
+    skipn (N.to_nat (sg_start s)) (bytes_of env bs) = bytes_of env (seg_boxes s) ++ bytes_of env post /\
+    forall j fr, nth_error (sg_frags s) j = Some fr ->
+      let fpre := pre ++ seg_head s ++ frs_boxes (firstn j (sg_frags s)) in
+      let fpost := frs_boxes (skipn (S j) (sg_frags s)) ++ post in
+      bs = fpre ++ fr_children fr ++ fpost /\
+      fr_start fr = lenN (bytes_of env fpre) /\
+      forall k c, nth_error (fr_children fr) k = Some c ->
+        let off := fr_start fr + sumN (map b_size (firstn k (fr_children fr))) in
+        exists tail, skipn (N.to_nat off) (bytes_of env bs) = in0 env c ++ tail /\
+          forall ty sz hl body,
+            C05SegCodecModel.next_box (in0 env c) = Ok (ty, sz, hl, body, []) ->
+            C05SegCodecModel.next_box (skipn (N.to_nat off) (bytes_of env bs)) = Ok (ty, sz, hl, body, tail).
+Proof. exact partition_bytes. Qed.
+Print Assumptions C12_partition_bytes.
+
+(* ... and for the moof/mdat pair of a fragment (Fragment.Moof / Fragment.Mdat): the children are emsg* moof mdat emsg*, the
+   moof lies at byte offset StartPos + sizes of the leading emsg boxes, the mdat directly behind it, and C05's reader decodes
+   exactly these two boxes there (for a moof: dec_top_box then yields the decoded trafs that C05's fragment theorems read) *)
+Theorem C12_partition_bytes_pair :
+  forall (env : N -> binfo) (o : opts) (bs : list topbox) (f : file) i s j fr m d,
+  assemble o bs = Ok f -> layout_ok bs = true ->
+  sized env bs -> sumN (map b_size bs) < M64 ->
+  nth_error (f_segs f) i = Some s -> nth_error (sg_frags s) j = Some fr ->
+  fr_moof fr = Some m -> fr_mdat fr = Some d ->
+  exists es1 es2 tail,
+    all_emsg es1 = true /\ all_emsg es2 = true /\ fr_children fr = es1 ++ m :: d :: es2 /\
+    b_kind m = KMoof /\ b_kind d = KMdat /\
+    let moff := fr_start fr + sumN (map b_size es1) in
+    skipn (N.to_nat moff) (bytes_of env bs) = in0 env m ++ in0 env d ++ tail /\
+    (forall ty sz hl body,
+        C05SegCodecModel.next_box (in0 env m) = Ok (ty, sz, hl, body, []) ->
+        C05SegCodecModel.next_box (skipn (N.to_nat moff) (bytes_of env bs)) = Ok (ty, sz, hl, body, in0 env d ++ tail)) /\
+    (forall ty sz hl body,
+        C05SegCodecModel.next_box (in0 env d) = Ok (ty, sz, hl, body, []) ->
+        C05SegCodecModel.next_box (skipn (N.to_nat (moff + b_size m)) (bytes_of env bs)) = Ok (ty, sz, hl, body, tail)).
+Proof. exact partition_bytes_pair. Qed.
+Print Assumptions C12_partition_bytes_pair.
 
 (* Outside layout_ok File.Encode does NOT reproduce the file (each line: accepted, encoded without error,
    tags of the boxes written): a free box is dropped; a sidx behind a fragment moves in front of its
@@ -339,3 +397,19 @@ Example C12_example_reencode_c01 :
   exists f out, assemble (mkOpts false false) x_boxes = Ok f /\ encode_segment_mode f = Ok out /\
                 lenN (concat (map (fun b => x_inb (b_tag b)) x_boxes)) = 152.
 Proof. exact reencode_c01_example. Qed.
+
+(* the same `styp moof mdat` written by the library satisfies the hypotheses of C12_partition_bytes(_pair), and C05's reader
+   decodes its moof (sequence number 7, one traf) and finds the mdat header of 8 bytes *)
+Example C12_example_partition_bytes :
+  sized (c01_env x_inb x_doff) x_boxes /\ sumN (map b_size x_boxes) = 152 /\ layout_ok x_boxes = true /\
+  (exists body, C05SegCodecModel.next_box x_moof = Ok (C05SegCodecModel.T_MOOF, 116, 8, body, []) /\
+     match C05SegCodecModel.dec_top_box C05SegCodecModel.T_MOOF 116 8 body with
+     | Ok (C05SegCodecModel.BMoof 116 m) => C05SegCodecModel.dm_seq m = Some 7 /\ length (C05SegCodecModel.dm_trafs m) = 1%nat
+     | _ => False
+     end) /\
+  (exists body, C05SegCodecModel.next_box x_mdat = Ok (C05SegCodecModel.T_MDAT, 16, 8, body, []) /\ body = [1; 2; 3; 0; 1; 2; 3; 1]).
+Proof.
+  split; [repeat constructor|]. split; [reflexivity|]. split; [reflexivity|]. split.
+  - eexists. split; [vm_compute; reflexivity|]. vm_compute. split; reflexivity.
+  - eexists. split; vm_compute; reflexivity.
+Qed.
